@@ -181,7 +181,30 @@ func (p *Prog) Func(pkgPath, spec string) *ssa.Function {
 		anchorMu.Unlock()
 		return fn
 	}
-	return p.resolveByShape(pkgPath, spec)
+	if fn := p.resolveByShape(pkgPath, spec); fn != nil {
+		return fn
+	}
+	return p.resolveByBareName(pkgPath, spec)
+}
+
+// resolveByBareName: the last resort for a method that was turned into a function (or moved to another receiver
+// type): the only function or method of the package that carries the anchor's base name.
+func (p *Prog) resolveByBareName(pkgPath, spec string) *ssa.Function {
+	base := spec
+	if i := strings.LastIndex(base, "."); i >= 0 {
+		base = base[i+1:]
+	}
+	var found *ssa.Function
+	for _, fn := range p.SrcFuncs(pkgPath) {
+		if FuncPkgPath(fn) != pkgPath || fn.Parent() != nil || fn.Name() != base || fn.Synthetic != "" {
+			continue
+		}
+		if found != nil && found != fn {
+			return nil
+		}
+		found = fn
+	}
+	return found
 }
 
 // IsFn reports whether fn is the function anchored as (pkgPath, spec).
